@@ -73,8 +73,9 @@ def main(tier, seed):
     for fmt in FORMATS:
         plist = []
         for nm, sp in shapes:
-            if quick and fmt == 'han' and not nm.startswith(('atom/Word', 'atom/Interval', 'set/SetExtension', 'vec/Product', 'image/ImageIntension@1', 'unary/', 'bin/Similarity', 'bin/DifferenceIntension', 'derived/Instance', 'sent/', 'task/')): continue
-            if quick and fmt == 'han' and nm.startswith(('sent/', 'task/')) and hash(nm) % 3: continue
+            if quick and fmt == 'han':
+                if nm.startswith(('sent/', 'task/')) and not c01.hash_pick(nm, 3): continue
+                sp = c01.subst_names_partial(sp)       # quick/Han: only the first name symbolic (see c01)
             for p in (['none'] if (quick and not nm.startswith('derived/')) else ['none', ('all', 1)]):
                 plist.append(dict(fmt=fmt, name=nm, spec=sp, pattern=p))
         R.run_query(Query('pipelines/' + fmt, 'c03', 'path', plist, '%d shapes (30 constructors, 4 derived copulas, nestings, sentences, tasks)' % len(shapes)), confirm, key_of)
